@@ -156,6 +156,12 @@ func (w *World) csEffects(fn *ssa.Function) []csEffect {
 						out = append(out, csEffect{in, n, fld, base, "mapupdate"})
 					}
 				}
+				// an in-place 256-bit update of a value held in a field (the block's fee sum)
+				if dest, ok := mutatesZ(c); ok {
+					if n, fld, base, ok := fieldOfLoad(dest); ok && isCSType(n) {
+						out = append(out, csEffect{in, n, fld, base, "zupdate"})
+					}
+				}
 			}
 		}
 	}
